@@ -404,6 +404,19 @@ def run(rep, tier="quick", replay=None, evidence_dir=None, collect_only=False):
         lookups = [1 for cb in prog.with_closures(fa) for bi, t in cb.calls() if any("MapHelper" in n or "::string" in n for n in callee_names(t["func"]))]
         rep.ob("C11.R4", "fix_aliases_namespace applies the namespace it is given (and derives none itself)", len(an) == 1 and okp and not lookups,
                "the helper looks a namespace up on its own", fa.loc())
+    # names taken from the schema text are always qualified with the namespace in force: the namespace-less constructor is
+    # used only where the text is an input's own top-level name
+    UNQUALIFIED_OK = {"schema::parser::Parser::get_schema_type_name": "the `name` of an input given as {\"name\": .., \"type\": {..}}: a top-level name"}
+    for k_, b_ in sorted(prog.bodies.items()):
+        if b_.crate != "apache_avro" or not k_.startswith("schema::parser::"):
+            continue
+        owner_ = b_.path if b_.kind != "Closure" else (b_.parent or b_.path)
+        for bi, t in b_.calls():
+            n_ = callee_names(t["func"])[0]
+            if n_.endswith("schema::name::Name::new") or n_ in ("schema::name::Name::new",) or (n_.endswith("::from_str") and "Name" in n_) or (n_.endswith("TryFrom::try_from") and "schema::name::Name" in str(t["func"].get("ga"))):
+                n4 += 1
+                rep.ob("C11.R4", "%s builds a name without an enclosing namespace only for a top-level name" % owner_, owner_ in UNQUALIFIED_OK,
+                       "a name taken from inside a schema is looked up / defined without the namespace in force: a relative reference binds to the null-namespace type of that name (when one happens to be defined already) instead of the type in the enclosing namespace", b_.loc(bi))
     rep.floor("C11.R4", "nested parse calls with a namespace argument", n4, 20)
 
     # ------------------------------------------------------------------ R2 (import C20.R3)
@@ -513,6 +526,23 @@ def run(rep, tier="quick", replay=None, evidence_dir=None, collect_only=False):
         viafn = any(a.get("k") == "const" and str(a.get("ctor", a.get("fn", ""))).endswith("Details::" + err) for bb in fam for _, t in bb.calls() for a in t["args"])
         tests = [x for bb in fam for x in kind_tests(bb, 2)]
         rep.ob("C11.R5", "%s: an element of the wrong JSON kind is an error (%s) and the elements are kind-tested" % (fn.split("::")[-1], err), (has or viafn) and bool(tests), "", b0.loc())
+
+    # the builder's index tables and its branch list move together (all variant* methods, also the derive-only one)
+    for k_, ub_ in sorted(prog.bodies.items()):
+        if not k_.startswith("schema::union::UnionSchemaBuilder::variant") or ub_.kind == "Closure":
+            continue
+        pushes = [bi for bi, t in calls_named(ub_, "std::vec::Vec::<T, A>::push") if ub_.opdesc(t["args"][0]) == "self.schemas"]
+        for bi, t in calls_named(ub_, "std::collections::HashMap::<K, V, S, A>::insert", "std::collections::BTreeMap::<K, V, A>::insert"):
+            tab = ub_.opdesc(t["args"][0])
+            if tab not in ("self.names", "self.variant_index"):
+                continue
+            cr = ub_.call_result_of(t["args"][2]) if len(t["args"]) > 2 else None
+            pos_ok = bool(cr and callee_names(cr[1]["func"])[0].endswith("::len") and "self.schemas" in ub_.opdesc(cr[1]["args"][0]))
+            paired = any(ub_.postdominates(p_, bi) for p_ in pushes)
+            inst = "%s: an entry of %s is added only together with the branch it points to" % (ub_.path.split("::")[-1], tab)
+            kx = sum(1 for o in rep.obligations if o["rule"] == "C11.R1" and o["instance"].startswith(inst))
+            rep.ob("C11.R1", inst + ("" if not kx else " #%d" % (kx + 1)), pos_ok and paired,
+                   "the index table is updated on a path that does not append the branch (or not with the position of the appended branch): the table points at the wrong branch or past the end, values of that kind are written under the wrong index or the lookup panics", ub_.loc(bi))
 
     # ------------------------------------------------------------ R6 union uniqueness is decided on the underlying type
     rep.rule("C11.R6", "the kind under which a union branch is checked for uniqueness is the underlying type of its schema (specification table of logical types); every other shape is its own kind")
